@@ -291,7 +291,12 @@ vorbis_look_residue *res0_look(vorbis_dsp_state *vd,
   for(j=0;j<dim;j++)
       look->partvals*=look->parts;
 
-  look->stages=maxstage;
+  /* the classification codewords are read (and written) in pass 0
+     whether or not any classification has a book in any pass: a
+     residue without books still runs that one pass, or its
+     codewords stay in the packet and whatever follows (the next
+     submap's residue) is decoded from the wrong bit position */
+  look->stages=(maxstage?maxstage:1);
   look->decodemap=_ogg_malloc(look->partvals*sizeof(*look->decodemap));
   for(j=0;j<look->partvals;j++){
     long val=j;
